@@ -98,6 +98,11 @@ def all_configs(ctx, nseeds):
         out.append(dict(base_cfg("NSGAII", "real", seed), variator="pcx3"))
         out.append(dict(base_cfg("SPEA2", "subset_str", seed), variator="mutation"))
         out.append(dict(base_cfg("GA", "subset_str", seed), variator="mutation", pop=3, off=5))
+        # MOEA/D with the default weight generator on 3 and 4 objectives (random_weights draws from the generator there)
+        out.append(dict(base_cfg("MOEAD", "real", seed), nobjs=3, pop=6))
+        out.append(dict(base_cfg("MOEAD", "real", seed), nobjs=4, pop=7))
+        out.append(dict(base_cfg("MOEAD", "subset_str", seed), nobjs=3, pop=5))
+        out.append(dict(base_cfg("NSGAIII", "real", seed), nobjs=3, pop=2))
         # bounded adaptive-grid archives: small capacity, 2-3 objectives, runs long enough that the archive is full and members
         # are evicted; EVERY step boundary is a save point (these two algorithms are cheap)
         out.append(dict(base_cfg("PESA2", "real", seed), capacity=6, nobjs=2, steps=ctx.scale(36, 60)))
@@ -248,6 +253,45 @@ def history_runs(ctx, tmp, cfgs, K, table, ref_hs):
                                                     "problems and after the other targets of its chunk, compared with the fresh-interpreter replay" % len(prelude)}
 
 
+def repeat_runs(ctx, tmp, cfgs, K, table, ref_hs):
+    """(ii-c) the same seeded run twice in a row inside one interpreter must give identical results, equal to the fresh-process one"""
+    # budgets come from the fresh-interpreter runs, so that the child does NOTHING before the first of the two runs
+    have = [i for i in range(len(cfgs)) if "T" in table.get(i, {}).get(ref_hs, {})]
+    chunks = [have[i:i + 8] for i in range(0, len(have), 8)]
+
+    def one(item):
+        ci, idxs = item
+        return spawn({"job": "repeat", "configs": [cfgs[i] for i in idxs], "K": K, "T": [table[i][ref_hs]["T"] for i in idxs]}, tmp, "rr_%d" % ci, ref_hs)
+    outs = pmap(one, list(enumerate(chunks)))
+    n = ndiff = 0
+    for (ci, idxs), o in zip(enumerate(chunks), outs):
+        if "error" in o:
+            ctx.obligation("child-run:repeat(chunk=%d)" % ci, "harness", False, o["error"])
+            continue
+        for i, a, b in zip(idxs, o["runs"], o["runs2"]):
+            cfg = cfgs[i]
+            fresh = table.get(i, {}).get(ref_hs)
+            if "error" in a or "error" in b:
+                continue
+            n += 1
+            ctx.count(2)
+            why = None
+            if a != b:
+                why = "the second run differs from the first (nfe %s vs %s; first differing solution %s)" % (
+                    a["sig"]["nfe"], b["sig"]["nfe"], first_diff(a["sig"]["result"], b["sig"]["result"]))
+            elif fresh is not None and "error" not in fresh and b != fresh:
+                why = "both runs differ from the fresh-interpreter run (first differing solution %s)" % first_diff(fresh["sig"]["result"], b["sig"]["result"])
+            if why:
+                ndiff += 1
+                ctx.violation("same-seed-rerun-in-process-differs:%s:%s" % (cfg["alg"], cfg["vtype"]),
+                              "%s: the same seeded configuration run twice in a row in one interpreter (re-seeded, fresh algorithm object): %s" % (short(cfg), why),
+                              {"kind": "repeat", "config": cfg, "K": K, "T": table[i][ref_hs]["T"],
+                               "preceding": [[cfgs[j], table[j][ref_hs]["T"]] for j in idxs[:idxs.index(i)]]})
+            else:
+                ctx.mark("repeat|" + cfg_key(cfg))
+    ctx.coverage["repeat_in_process"] = {"configurations": n, "child_processes": len(chunks), "differing": ndiff}
+
+
 # ----------------------------------------------------------------------------
 # (iii) save at every step boundary, load in a new process, continue
 # ----------------------------------------------------------------------------
@@ -367,6 +411,7 @@ def run(ctx):
         table = replay_hashseeds(ctx, tmp, rcfgs, K, hashseeds)
         index = {cfg_key(c): i for i, c in enumerate(rcfgs)}
         history_runs(ctx, tmp, rcfgs, K, table, hashseeds[0])
+        repeat_runs(ctx, tmp, rcfgs, K, table, hashseeds[0])
         # quick: every algorithm with a rotating subset of its variable types (+ all variants); thorough: everything
         if ctx.thorough:
             sel = cfgs
@@ -389,7 +434,9 @@ def run(ctx):
                                        "from the single run" % (stats["compose_differs_unclaimed"], stats["unclaimed_splits"]))
         ctx.rule = ("(i) AST frame check of every platypus/*.py; (ii) every shipped algorithm x applicable variable type (real, binary, integer, permutation and subset of "
                     "ints and of STRINGS) + variants, same seed in fresh interpreters under PYTHONHASHSEED in {0,1,2,<drawn>,random}, results diffed exactly "
-                    "(variables, objectives as float.hex, nfe, evaluations per step); (iii) for a seeded K-step run: at EVERY step boundary k=0..K save_state (pickle), "
+                    "(variables, objectives as float.hex, nfe, evaluations per step); (ii-b) each of them again after a prelude of unrelated runs with the library-default "
+                    "operators in the same interpreter, (ii-c) each of them twice in a row in one interpreter (re-seeded, fresh object) incl. MOEA/D with the default weight "
+                    "generator on 3 and 4 objectives — all compared with the fresh-interpreter result; (iii) for a seeded K-step run: at EVERY step boundary k=0..K save_state (pickle), "
                     "load_state in a new process whose generator was reseeded and used, continue, compare with the in-memory continuation and (where claimed) with "
                     "the single run; non-trivial = replay with a non-empty result, or a split strictly inside the run (both calls make steps); distinct by "
                     "(configuration, seed[, boundary])")
@@ -428,6 +475,18 @@ def replay(ctx, data):
                 ctx.violation(data.get("key", "replay"), "replay: %s after %d earlier runs differs from the fresh-interpreter run (%s)" % (
                     short(cfg), len(rp["history"]), fresh.get("error") or after.get("error") or
                     first_diff(fresh["runs"][0].get("sig", {}).get("result", []), after["runs"][0].get("sig", {}).get("result", []))), rp)
+        elif rp.get("kind") == "repeat":
+            cfg = rp["config"]
+            pre = list(rp.get("preceding", []))
+            fresh = spawn({"job": "replay", "configs": [cfg], "K": rp["K"], "T": [rp["T"]]}, tmp, "fr", "0")
+            rep = spawn({"job": "repeat", "configs": [c for c, _ in pre] + [cfg], "K": rp["K"], "T": [t for _, t in pre] + [rp["T"]]}, tmp, "rr", "0")
+            ctx.count(3)
+            bad = "error" in fresh or "error" in rep
+            if not bad:
+                a, b, f = rep["runs"][-1], rep["runs2"][-1], fresh["runs"][0]
+                bad = a != b or b != f
+            if bad:
+                ctx.violation(data.get("key", "replay"), "replay: %s run twice in one interpreter: results differ from each other or from the fresh-interpreter run" % short(cfg), rp)
         elif rp.get("kind") == "split":
             lits = []
             st = split_runs(ctx, tmp, [dict(rp["config"], steps=rp["K"])], rp["K"], lambda i, cfg: [rp["k"]], lits)
